@@ -319,9 +319,15 @@ func scnDidReg(ctx *check.JobCtx) {
 		switch r.Intn(12) {
 		case 0, 1: // create a new sid with a valid proof
 			ts := now()
+			cs := "create/valid"
+			if r.Intn(4) == 0 {
+				// a proof dated ahead of the block that carries it (minutes to hours): fresh by any reading of block time
+				ts += []uint64{120, 299, 301, 600, 3500, 7200}[r.Intn(6)]
+				cs = "create/valid-dated-ahead"
+			}
 			sid := actors.NewSidDid(fmt.Sprintf("s%d-%d", ctx.Job.Seed, i), ts)
 			p := actors.CosmosProof(acct, sid.DID(), ts, actors.BindingMessage(sid.DID(), ts))
-			if e := bind("create/valid", acct, acct, sid, p, acct.AccountID(), true, sid.Versions[0].Keys); e.OK {
+			if e := bind(cs, acct, acct, sid, p, acct.AccountID(), true, sid.Versions[0].Keys); e.OK {
 				sids = append(sids, sid)
 			}
 		case 2: // bind another account to an existing sid
